@@ -34,7 +34,12 @@ var c15Uniq int64
 // genLazySpec generates an expression that contains at least one lazily initialised node.
 func genLazySpec(dt *drv.T, c *Ctx) *GenSpec {
 	inner := GenGenSpec(dt, GenCfg{Depth: c.Pick(1, 2), SmallInts: true, Custom: true, Make: true, BigRegexp: false})
-	switch pick(dt, "lazy", "deferred", "deferred", "regexp", "runetable", "string", "custom", "oneof-mix", "make", "make") {
+	switch pick(dt, "lazy", "deferred", "deferred", "regexp", "runetable", "string", "custom", "oneof-mix", "make", "make", "perm", "bytes") {
+	case "perm":
+		// not lazy, but the one generator that is built around a slice of the user: every value has to be a fresh copy
+		return &GenSpec{K: "perm", N: drv.IntRange(1, 4).Draw(dt, "permn")}
+	case "bytes":
+		return &GenSpec{K: "slice", Min: -1, Max: 3, Sub: []*GenSpec{{K: "bytesmatch", Re: `[a-c]{0,3}UNIQ`}}}
 	case "make":
 		// reflection-built generators (structs, arrays, pointers are built lazily through Deferred)
 		return &GenSpec{K: "make", Type: pick(dt, "mktype", "struct", "nested", "array", "rec", "ptr", "ptrptr", "map", "slice", "slicenamed")}
@@ -120,7 +125,9 @@ func (c15) Run(c *Ctx, csAny any) Outcome {
 					if stringAt == k {
 						_ = g.String()
 					}
-					log = append(log, Canon(g.Draw(t, "v")))
+					v := g.Draw(t, "v")
+					log = append(log, Canon(v))
+					spec.Scribble(v) // a drawn value belongs to the check that drew it
 				}
 			})
 		}()
